@@ -12,7 +12,8 @@ PROPERTY_ID = "C18"
 LEVEL = "exploration"
 RULE = ("Everything C17 uses (seed corpus, generated programs, layout perturbations with comments and multi-line "
         "strings) PLUS inputs with parse errors (token soup, token-level mutations and truncations of valid programs, "
-        "arbitrary Unicode text), since the quantifier is every input. Oracle: format(format(x)) == format(x) "
+        "arbitrary Unicode text), since the quantifier is every input, and function signatures written without optional "
+        "spaces whose length is just below the 100-column limit. Oracle: format(format(x)) == format(x) "
         "byte for byte; on a hashed 5% sample (and on replay) `garden format --check` run on a file holding "
         "format(x) must exit 0 and `garden format` must reproduce the hook's output. A crash is C01's business and "
         "is reported as inconclusive here. Failures are classified by input population (corpus / canonical printer "
@@ -59,6 +60,11 @@ def check(case, ctx) -> Res:
         pop = case.get("pop", "?")
         sig = (f"not idempotent [{pop} input]: {'indentation only' if indent_only else 'content changes'}, "
                f"{'reaches a fixed point within six passes' if settles else 'no fixed point within six passes'}")
+        long_sig = [ln for ln in a if len(ln) > 100 and ln.lstrip().startswith(("fun ", "method ", "public fun ", "public method "))]
+        if long_sig and settles and not any(len(ln) > 100 for ln in b if ln in long_sig):
+            # one root cause with its own signature: the wrapping phase measured the signature line before the
+            # spacing phases lengthened it past the limit, so it is only wrapped by the next pass
+            sig = "not idempotent: a signature line that crosses 100 columns only after spacing is fixed is wrapped on the second pass"
         return fail(sig, f"first differing line {i + 1}:\n  pass 1: {la!r}\n  pass 2: {lb!r}\n--- input\n{src}\n"
                          f"--- pass 1\n{out1}\n--- pass 2\n{out2}", classes=cls)
     if ctx.strict or (zlib.crc32(src.encode("utf-8", "replace")) % 20 == 0):
@@ -102,6 +108,23 @@ def gen_broken(r):
     return {"src": T.g_text(r, 60), "pop": "unparseable-or-random"}
 
 
+def gen_near_limit(r):
+    """function / method signatures written without optional spaces whose length is just below the 100-column
+    limit, so that fixing the spacing pushes them over it"""
+    n = r.int(2, 6)
+    params = [f"param_{i}:{r.choice(['Int', 'String', 'List<Int>', 'Bool'])}" for i in range(n)]
+    ret = r.choice([":Int", ":String", ""])
+    head = r.choice(["fun ", "public fun "])
+    sep = r.choice([", ", ","])
+    body = " { 1 }"
+    base = head + "f" + "(" + sep.join(params) + ")" + ret + body
+    target = r.int(88, 104)
+    name = "f" + "x" * max(0, target - len(base))
+    line = head + name + "(" + sep.join(params) + ")" + ret + body
+    extra = r.choice(["", "\nlet after = 1\n", "\n// trailing comment\n"])
+    return {"src": line + "\n" + extra, "pop": "near-limit-signature"}
+
+
 def enum_corpus(tier):
     for e in T.corpus():
         yield {"src": e["src"], "pop": "corpus"}
@@ -115,5 +138,6 @@ SUBS = [
     Sub("corpus", check, enum=enum_corpus, show=show),
     Sub("canonical", check, gen=gen_canonical, cases={"quick": 1500, "thorough": 50000}, show=show),
     Sub("valid-perturbed", check, gen=gen_valid, cases={"quick": 3000, "thorough": 100000}, show=show),
+    Sub("near-limit-signatures", check, gen=gen_near_limit, cases={"quick": 400, "thorough": 8000}, show=show),
     Sub("with-parse-errors", check, gen=gen_broken, cases={"quick": 3000, "thorough": 100000}, show=show),
 ]
